@@ -103,6 +103,8 @@ structure MmapShape where
   pollsCtxPerRow : Bool
   /-- inside the loop the mapped span is recorded in a NEW table (`swapped[major] = span`) -/
   repointsRows : Bool
+  /-- that table is freshly allocated (`make([][]Entry, len, cap)`), not an alias of `m.Entries` -/
+  tableIsFresh : Bool
   /-- spans are capped (`entries[a:b:b]`) so that `append` cannot spill into the next row -/
   capsSpans : Bool
   /-- the receiver's `Entries` is assigned only after the loop (and after the old mapping was released) -/
@@ -114,7 +116,7 @@ def MmapShape.expectedOrder : List String :=
 
 def MmapShape.safe (s : MmapShape) : Bool :=
   s.zeroNnzReturnsEarly && decide (s.order = MmapShape.expectedOrder) && s.removesFileOnFailure &&
-  s.closesFileOnFailure && s.unmapsOnFailure && s.pollsCtxPerRow && s.repointsRows && s.capsSpans &&
+  s.closesFileOnFailure && s.unmapsOnFailure && s.pollsCtxPerRow && s.repointsRows && s.tableIsFresh && s.capsSpans &&
   s.installsAfterCopy
 
 /-- how the servers isolate stored collections (oapi/openapi.go, namedtrust.go, grpc/compute.go). -/
